@@ -1,6 +1,7 @@
 package vc
 
 import (
+	"time"
 	"fmt"
 	"sync"
 	"go/token"
@@ -173,7 +174,9 @@ type Exec struct {
 	RevealAll  bool // unfold every opaque predicate (used to obtain faithful counterexamples)
 	// ReplayInline > 0: contracted repo callees are inlined to this depth
 	// (counterexample search for replays only, never for proofs)
-	ReplayInline int
+	ReplayInline   int
+	ReplayDeadline time.Time
+	replayInlined  int
 	SmallLen   uint64 // when non-zero: every pre-existing slice has at most this capacity (replay search)
 	curRecBase map[string]int
 	funcsMemo  map[*ssa.Function]bool
